@@ -34,6 +34,7 @@ type schedAct struct {
 type schedInput struct {
 	OnDisk bool       `json:"on_disk"`
 	Acts   []schedAct `json:"acts"`
+	ViaBucket bool    `json:"via_bucket,omitempty"` // feeds are started through Bucket.StartDCPFeed with Scopes naming the collection
 }
 
 type gate struct {
@@ -309,7 +310,13 @@ func execSched(in schedInput, scratch string) (Case, error) {
 			runs[a.F] = r
 			name := a.Name
 			go func() {
-				r.started <- col.StartDCPFeed(ctxBg, sgbucket.FeedArguments{ID: fid, Backfill: backfill, CheckpointPrefix: "cp", Terminator: r.term, DoneChan: r.done},
+				fargs := sgbucket.FeedArguments{ID: fid, Backfill: backfill, CheckpointPrefix: "cp", Terminator: r.term, DoneChan: r.done}
+				start := col.StartDCPFeed
+				if in.ViaBucket {
+					fargs.Scopes = map[string][]string{"_default": {"_default"}}
+					start = b.StartDCPFeed
+				}
+				r.started <- start(ctxBg, fargs,
 					func(ev sgbucket.FeedEvent) bool {
 						if ev.Opcode == sgbucket.FeedOpMutation || ev.Opcode == sgbucket.FeedOpDeletion {
 							dmu.Lock()
@@ -322,6 +329,13 @@ func execSched(in schedInput, scratch string) (Case, error) {
 			}()
 			if !wait(g1.arrived, fmt.Sprintf("act %d backfill", i)) {
 				fatal = "feed did not reach feed.preregister"
+			}
+			// the feed is parked before its registration: the call that starts it must not have returned, or a
+			// write made after it returned could fall between the backfill and the registration
+			select {
+			case <-r.started:
+				fatal = "StartDCPFeed returned before its feed was registered"
+			default:
 			}
 		case "register":
 			actTerms = append(actTerms, C("ARegister", N(uint64(a.F))))
@@ -476,7 +490,7 @@ func schedKey(k string) string {
 // generate a valid action list; the generator mirrors coq/Feed.v far enough to know queue lengths, so
 // that Deliver is only issued on a non-empty queue and Stop knows whether an event is parked
 func genSched(r *rand.Rand) schedInput {
-	in := schedInput{OnDisk: r.Intn(3) == 0}
+	in := schedInput{OnDisk: r.Intn(3) == 0, ViaBucket: r.Intn(2) == 0}
 	nw := 2 + r.Intn(3)
 	names := 1 + r.Intn(2)
 	type run struct {
